@@ -153,5 +153,31 @@ theorem gaussL_X_mul (t : K) (p : K[X]) : gaussL t (X * p) = 1 / t * gaussL t (d
         push_cast
         ring
 
+theorem list_sum_comm {α β : Type} (l1 : List α) (l2 : List β) (f : α → β → K) :
+    (l1.map fun a => (l2.map fun b => f a b).sum).sum = (l2.map fun b => (l1.map fun a => f a b).sum).sum := by
+  induction l1 with
+  | nil => simp
+  | cons a t ih =>
+    simp only [List.map_cons, List.sum_cons, ih]
+    rw [← List.sum_map_add]
+
+theorem sum_filterMap {α β : Type} (l : List α) (g : α → Option β) (f : β → K) :
+    ((l.filterMap g).map f).sum = (l.map fun a => match g a with | some b => f b | none => 0).sum := by
+  induction l with
+  | nil => simp
+  | cons a t ih =>
+    simp only [List.filterMap_cons, List.map_cons, List.sum_cons]
+    cases h : g a <;> simp [ih]
+
+theorem finish_ok (p0r p1r : Except Iodata.Conv.Err (List (Nat × Int))) (raw : Nat → Nat → K) (M : List (List K))
+    (h : finish p0r p1r raw = .ok M) : ∃ p0 p1, p0r = .ok p0 ∧ p1r = .ok p1 ∧ M = applyConv p0 p1 raw sgnMul := by
+  unfold finish at h
+  cases p0r with
+  | error e => simp at h
+  | ok p0 =>
+    cases p1r with
+    | error e => simp at h
+    | ok p1 => simp at h; exact ⟨p0, p1, rfl, rfl, h.symm⟩
+
 end
 end Iodata.Overlap
